@@ -122,7 +122,7 @@ _RE_SIMSTATES = re.compile(r"(\d+) states checked|The number of states generated
 
 def run(module: str, cfg: str, *, workdir: str, mode: str = "mc", workers: Optional[int] = None,
         sim_num: int = 100, sim_depth: int = 20, seed: Optional[int] = None, env: Dict[str, str] = None,
-        timeout: float = 1800, coverage: bool = True, extra_modules=(), deque: bool = False,
+        timeout: float = 1800, coverage: bool = False, extra_modules=(), deque: bool = False,
         dump_trace: bool = True, cfg_name: Optional[str] = None, java_heap: str = None) -> TlcResult:
     """Run TLC on specs/<module>.tla with config text `cfg` inside `workdir` (a scratch dir)."""
     # copy all specs so EXTENDS/INSTANCE resolve; tiny files
